@@ -252,9 +252,12 @@ package xmpp
 //@ nopanic [C09] (*Session).UpdateAddr
 //@ nopanic [C09] (*Session).closeInputStream
 //@ nopanic [C09] (*Session).closeSession
+//@ nopanic [C09] (*Session).outputClosed
 //@ nopanic [C09] (*Session).sendError
 //@ nopanic [C09] (*Session).sendResp
 //@ nopanic [C09] (*Session).sendResp$1 -- unproved: nil/s.sentStanzaMutex
+//@ nopanic [C09] (*bindIQ).TokenReader
+//@ nopanic [C09] (*bindIQ).WriteXML
 //@ nopanic [C09] (*deferWriter).Close
 //@ nopanic [C09] (*deferWriter).EncodeToken
 //@ nopanic [C09] (*deferWriter).Flush
@@ -267,10 +270,15 @@ package xmpp
 //@ nopanic [C09] (*responseChecker).EncodeElement
 //@ nopanic [C09] (*responseChecker).EncodeToken
 //@ nopanic [C09] (*stanzaEncoder).EncodeToken
+//@ nopanic [C09] (bindPayload).TokenReader
+//@ nopanic [C09] (bindPayload).TokenReader$1
+//@ nopanic [C09] (bindPayload).TokenReader$2
 //@ nopanic [C09] (earlyCloser).Token
 //@ nopanic [C09] (iqResponder).Close
 //@ nopanic [C09] (iqResponder).Token
 //@ nopanic [C09] (nopHandler).HandleXMPP
+//@ nopanic [C09] BindCustom
+//@ nopanic [C09] BindResource
 //@ nopanic [C09] DialClientSession
 //@ nopanic [C09] DialClientSession$1
 //@ nopanic [C09] DialServerSession
@@ -278,6 +286,7 @@ package xmpp
 //@ nopanic [C09] DialSession
 //@ nopanic [C09] NewClientSession
 //@ nopanic [C09] NewClientSession$1
+//@ nopanic [C09] NewNegotiator
 //@ nopanic [C09] NewServerSession
 //@ nopanic [C09] NewServerSession$1
 //@ nopanic [C09] NewSession
@@ -286,6 +295,21 @@ package xmpp
 //@ nopanic [C09] ReceiveServerSession
 //@ nopanic [C09] ReceiveServerSession$1
 //@ nopanic [C09] ReceiveSession
+//@ nopanic [C09] SASL
+//@ nopanic [C09] SASLServer
+//@ nopanic [C09] StartTLS
+//@ nopanic [C09] StartTLS$1
+//@ nopanic [C09] StartTLS$2
+//@ nopanic [C09] StartTLS$3
+//@ nopanic [C09] bind
+//@ nopanic [C09] bind$1
+//@ nopanic [C09] bind$2
+//@ nopanic [C09] bind$3
+//@ nopanic [C09] containsStartTLS
+//@ nopanic [C09] decodeIfSASLErr
+//@ nopanic [C09] decodeSASLChallenge
+//@ nopanic [C09] decodeStreamErr
+//@ nopanic [C09] getFeature
 //@ nopanic [C09] getIDTyp
 //@ nopanic [C09] handleInputStream
 //@ nopanic [C09] isIQ
@@ -293,14 +317,30 @@ package xmpp
 //@ nopanic [C09] isStanzaEmptySpace
 //@ nopanic [C09] iterIQ
 //@ nopanic [C09] iterIQ$1
+//@ nopanic [C09] negotiateClient
+//@ nopanic [C09] negotiateClient$1 -- unproved: nil/session.LocalAddr()
+//@ nopanic [C09] negotiateFeatures
+//@ nopanic [C09] negotiateServer
+//@ nopanic [C09] negotiateServer$1 -- unproved: nil/session.LocalAddr()
 //@ nopanic [C09] negotiateSession
+//@ nopanic [C09] negotiator
+//@ nopanic [C09] negotiator$1
+//@ nopanic [C09] newSASL
+//@ nopanic [C09] newSASL$1
+//@ nopanic [C09] newSASL$2
+//@ nopanic [C09] newSASL$3
+//@ nopanic [C09] nextElementDecoder
+//@ nopanic [C09] prerequisitesHold
+//@ nopanic [C09] readStreamFeatures
 //@ nopanic [C09] send
+//@ nopanic [C09] sendSASLError
 //@ nopanic [C09] setDeadline
 //@ nopanic [C09] setDeadline$1
 //@ nopanic [C09] setWriteDeadline
 //@ nopanic [C09] setWriteDeadline$1
 //@ nopanic [C09] unmarshalIQ
 //@ nopanic [C09] unmarshalIQ$1
+//@ nopanic [C09] writeStreamFeatures
 // END enrolment C09
 
 // ---------------------------------------------------------------------------
